@@ -51,6 +51,81 @@ func (c *fakeCAS) FindMissing(ctx context.Context, digests digest.Set) (digest.S
 	return digest.EmptySet, status.Error(codes.Unimplemented, "not used")
 }
 
+// gate is a parking point: when armed, the next caller blocks until the
+// harness releases it (or its context is cancelled).
+type gate struct {
+	mu     sync.Mutex
+	armed  bool
+	parked []chan struct{}
+}
+
+func (g *gate) pass(ctx context.Context) error {
+	g.mu.Lock()
+	if !g.armed {
+		g.mu.Unlock()
+		return nil
+	}
+	g.armed = false
+	ch := make(chan struct{})
+	g.parked = append(g.parked, ch)
+	g.mu.Unlock()
+	select {
+	case <-ch:
+		return nil
+	case <-ctx.Done():
+		g.mu.Lock()
+		for i, c := range g.parked {
+			if c == ch {
+				g.parked = append(g.parked[:i], g.parked[i+1:]...)
+			}
+		}
+		g.mu.Unlock()
+		return status.Error(codes.Canceled, "context cancelled while parked")
+	}
+}
+
+func (g *gate) arm() {
+	g.mu.Lock()
+	g.armed = true
+	g.mu.Unlock()
+}
+
+func (g *gate) disarm() {
+	g.mu.Lock()
+	g.armed = false
+	g.mu.Unlock()
+}
+
+func (g *gate) waiting() int {
+	g.mu.Lock()
+	defer g.mu.Unlock()
+	return len(g.parked)
+}
+
+func (g *gate) release() bool {
+	g.mu.Lock()
+	defer g.mu.Unlock()
+	if len(g.parked) == 0 {
+		return false
+	}
+	close(g.parked[0])
+	g.parked = g.parked[1:]
+	return true
+}
+
+// gatedAuthorizer permits everything, possibly after parking.
+type gatedAuthorizer struct{ g *gate }
+
+func (a gatedAuthorizer) Authorize(ctx context.Context, instanceNames []digest.InstanceName) []error {
+	errs := make([]error, len(instanceNames))
+	if err := a.g.pass(ctx); err != nil {
+		for i := range errs {
+			errs[i] = err
+		}
+	}
+	return errs
+}
+
 // allowAuthorizer permits everything.
 type allowAuthorizer struct{}
 
@@ -82,12 +157,18 @@ type stream struct {
 	msgSteps []int
 	sendErr  error // when set, Send fails (client connection broken)
 	w        *world
+	gate     gate
 
 	finished bool
 	err      error
 }
 
 func (s *stream) Send(op *longrunningpb.Operation) error {
+	// A parked Send models a slow client connection: the scheduler has
+	// released its lock and is blocked in the transport.
+	if err := s.gate.pass(s.ctx); err != nil {
+		return err
+	}
 	s.mu.Lock()
 	defer s.mu.Unlock()
 	if s.sendErr != nil {
